@@ -88,8 +88,9 @@ func (t *WeightedMerkleTrie) collectNodes(node Node, persistTrie *PersistTrie) e
 
 	if !node.ToCollect() {
 		if r, ok := node.(*routingNode); ok {
+			// CalcHash: the stored hash is stale (or not there yet) while the node is dirty
 			node = &hashNode{
-				hash:   r.hash,
+				hash:   r.CalcHash(),
 				weight: r.weight,
 			}
 		}
